@@ -210,7 +210,14 @@ static ASMJIT_FAVOR_SIZE Error validate(InstDB::Mode mode, const BaseInst& inst,
         return make_error(Error::kInvalidLockPrefix);
       }
 
-      if (ASMJIT_UNLIKELY(op_count < 1 || !operands[0].is_mem())) {
+      // The locked operand is the memory destination. XCHG is the only instruction that can have it second (the
+      // assembler accepts `xchg reg, mem` as well as `xchg mem, reg`).
+      bool has_mem_dst = op_count >= 1 && operands[0].is_mem();
+      if (!has_mem_dst && inst_id == Inst::kIdXchg && op_count >= 2 && operands[1].is_mem()) {
+        has_mem_dst = true;
+      }
+
+      if (ASMJIT_UNLIKELY(!has_mem_dst)) {
         return make_error(Error::kInvalidLockPrefix);
       }
     }
